@@ -724,7 +724,11 @@ type gen interface {
 
 // generateInProcess mirrors cmd/<generator>/main.go: flagsfiller over the same arguments,
 // Sanitize*, Parse, Write.  cwd must be the package directory (as under go:generate).
-func generateInProcess(kind, dir, file string, args []string) (outFile string, err error) {
+//
+// reuse: the options holder is used for a SECOND Parse + Write ("repeated runs in one process" with the
+// holder a regenerate-on-demand driver keeps): what the second run leaves is what is observed, and it
+// must be the file one run writes - state kept in the holder between runs must not reach the output.
+func generateInProcess(kind, dir, file string, args []string, reuse bool) (outFile string, err error) {
 	defer func() {
 		if p := recover(); p != nil {
 			err = fmt.Errorf("panic: %v", p)
@@ -769,6 +773,14 @@ func generateInProcess(kind, dir, file string, args []string) (outFile string, e
 	}
 	if err = g.Write(); err != nil {
 		return *out, fmt.Errorf("writing failed: %w", err)
+	}
+	if reuse {
+		if err = g.Parse(); err != nil {
+			return *out, fmt.Errorf("parsing failed on the reused holder: %w", err)
+		}
+		if err = g.Write(); err != nil {
+			return *out, fmt.Errorf("writing failed on the reused holder: %w", err)
+		}
 	}
 	return *out, nil
 }
@@ -923,7 +935,8 @@ func worker(jobsJSON string) {
 			st := j.Steps[k]
 			prepare(j, st.Prep)
 			st = actualState(j, st)
-			_, err := generateInProcess(j.Kind, j.Dir, "def.go", argsOf(j, st.Cfg))
+			// every third step of a history runs Parse + Write twice on one options holder
+			_, err := generateInProcess(j.Kind, j.Dir, "def.go", argsOf(j, st.Cfg), k%3 == 1)
 			res[i] = append(res[i], record(j, "inproc", k, st, errClass(err)))
 		}
 	}
